@@ -1,6 +1,183 @@
 import Driver.C02
-/-! C03 sessions use the request language of C02 (the machine + breakpoint/step bookkeeping model). -/
+import BsVerif.Model.Step
+/-!
+Line protocol of C03 (where the step commands land).
+
+    C03 new <prog> <entry> <exit> <trace> <bytes>          as C01/C02: the abstract machine (pcs + original bytes)
+    C03 ann <depth:cfa:ret:gap,..>                          annotation of every trace position (reference tracer)
+    C03 fn <id> <declfile|-> <lo:hi,..> <lo:hi,..> <file:path,..> <a:f:l:flags,..>
+                                                            a function the trace enters: DIE ranges, inlined ranges,
+                                                            file index ↦ path id, window of the unit's rows (stored order)
+    C03 break <a> | remove <a> | start | continue            as C02
+    C03 stepi [out] | step | next | finish [out]             NO observed parameters: the model computes the temporaries,
+                                                            the number of single steps and the landing position itself
+Answers of step commands: `done <pc> p=<pokes> t=<temporaries> k=<single steps inside the executable> h=<hooks>`.
+The landing position comes from the index-level model (`Model/Step.lean`); the text patches come from the machine
+model of C02 run with the temporaries / step counts the index-level model computed; both must agree on the pc.
+-/
 namespace Driver.C03
-abbrev St := Driver.C02.St
-def step (st : St) (toks : List String) : St × String := Driver.C02.step st toks
+open BsVerif BsVerif.Proto BsVerif.Bp BsVerif.Lines BsVerif.Step Driver.C01
+
+structure St where
+  s : Bp.St := { τ := [], code := fun _ => 0 }
+  τ : Step.Trace := #[]
+  fns : Array FnRec := #[]
+  inGap : Bool := false       -- executing outside the executable, before `τ[s.idx]`
+  dead : Bool := false        -- the debuggee exited during a step command
+
+def splitNats? (sep : String) (tok : String) : Option (List Nat) :=
+  if tok.isEmpty then some [] else (tok.splitOn sep).mapM hexNat?
+
+def decPos? (pc : Nat) (tok : String) : Option Pos :=
+  match splitNats? ":" tok with
+  | some [d, c, r, g] => some { pc := pc, depth := d, cfa := c, ret := r, gap := g }
+  | _ => none
+
+def decRng? (tok : String) : Option Rng :=
+  match splitNats? ":" tok with
+  | some [a, b] => some ⟨a, b⟩
+  | _ => none
+
+def decPair? (tok : String) : Option (Nat × Nat) :=
+  match splitNats? ":" tok with
+  | some [a, b] => some (a, b)
+  | _ => none
+
+def decRow? (tok : String) : Option Row :=
+  match splitNats? ":" tok with
+  | some [a, f, l, fl] =>
+    some { addr := a, file := f, line := l, col := 0,
+           stmt := fl % 2 == 1, pe := fl / 2 % 2 == 1, eb := fl / 4 % 2 == 1, es := fl / 8 % 2 == 1 }
+  | _ => none
+
+def zipAnn : List Nat → List String → Option (List Pos)
+  | [], [] => some []
+  | pc :: pcs, t :: ts =>
+    match decPos? pc t, zipAnn pcs ts with
+    | some p, some r => some (p :: r)
+    | _, _ => none
+  | _, _ => none
+
+/-- enabled user breakpoints of the registry -/
+def userSet (s : Bp.St) : List Nat :=
+  (s.active.filter (fun b => b.enabled && b.kind != Kind.temp)).map (·.addr)
+
+def hookOf (I : Info) (pc : Nat) : String :=
+  "s" ++ hex pc ++ ":" ++ (match I.place pc with | some p => toString p.line | none => "-")
+
+def fin (st : St) (s : Bp.St) (inGap : Bool) (ans : String) : St × String :=
+  ({ st with s := s, inGap := inGap }, ans)
+
+/-- answer of a completed step command: machine state `s` (after the patches), landing `l` of the index-level model -/
+def answer (st : St) (I : Info) (s : Bp.St) (l : Land) (k : Nat) : St × String :=
+  let tail := " p=" ++ showPokes s.pokes ++ " t=" ++ encList hex l.temps ++ " k=" ++ toString k
+  match l.why with
+  | .exit =>
+    if s.idx == st.τ.size then ({ st with s := s, dead := true }, "exit " ++ toString s.exitCode ++ tail)
+    else (st, "model-split exit-vs-" ++ toString s.idx)
+  | .out => ({ st with s := s, inGap := true }, "done out" ++ tail ++ " h=-")
+  | why =>
+    if s.idx != l.idx then (st, "model-split " ++ toString s.idx ++ "-vs-" ++ toString l.idx)
+    else
+      let pc := pcAt st.τ l.idx
+      let h := match why with
+        | .brk b => "b" ++ hex b ++ "," ++ hookOf I pc
+        | _ => hookOf I pc
+      fin st s false ("done " ++ hex pc ++ tail ++ " h=" ++ h)
+
+/-- a place / frame that equals no real one: the start of a `step` issued outside the executable -/
+def nowhere : Place := { addr := 0, path := 2 ^ 62, line := 0, stmt := false }
+
+def stepCmd (st : St) (cmd : String) (obsOut : Bool) (obsK : Nat := 0) : St × String :=
+  let s0 := { st.s with pokes := [] }
+  if s0.status != Status.inProgress then (st, "err")
+  else
+    let I := Info.ofFns st.fns
+    let i := s0.idx
+    let U := userSet s0
+    match cmd with
+    | "stepi" =>
+      if st.inGap then
+        if obsOut then fin st s0 true "done out p=- t=- k=0 h=-"
+        else fin st s0 false ("done " ++ hex (pcAt st.τ i) ++ " p=- t=- k=0 h=" ++ hookOf I (pcAt st.τ i))
+      else
+        let s1 := stepN 1 s0
+        if s1.idx ≥ st.τ.size then answer st I s1 { idx := st.τ.size, why := .exit } 1
+        else if (at' st.τ s1.idx).gap > 0 then fin st s1 true ("done out p=" ++ showPokes s1.pokes ++ " t=- k=1 h=-")
+        else answer st I s1 { idx := i + 1, why := .done } 1
+    | "step" =>
+      -- issued outside the executable: the start place and frame are libc's; the first candidate is `τ[i]` itself
+      let l := if st.inGap then stepInLoop I st.τ nowhere (2 ^ 62) (st.τ.size + 1 - i) (i - 1) else stepIn I st.τ i
+      if obsOut then
+        -- the implementation stopped OUTSIDE the executable after `obsK` instruction steps inside it (libc has line
+        -- information of its own on this machine: environment).  Consistent iff that point lies in a gap of the trace
+        -- before the model's own landing.
+        let j := i + obsK
+        if (j < l || (j == l && l == st.τ.size)) && (j == st.τ.size || (at' st.τ j).gap > 0 || (obsK == 0 && st.inGap)) then
+          let s1 := stepN obsK s0
+          fin st s1 true ("done out p=" ++ showPokes s1.pokes ++ " t=- k=" ++ toString obsK ++ " h=-")
+        else (st, "model-split out-after-" ++ toString obsK ++ "-but-lands-" ++ toString (l - i))
+      else
+        let k := l - i
+        answer st I (stepN k s0) { idx := l, why := if st.τ.size ≤ l then .exit else .done } k
+    | "next" =>
+      if st.inGap then (st, "skipped-outside") else
+      let l := stepOver I st.τ U i
+      let s1 := stepN l.pre s0
+      let (s2, _) := tempRun s1 l.temps l.tail
+      answer st I s2 l l.tail
+    | "finish" =>
+      if st.inGap then (st, "skipped-outside") else
+      let l := stepOut st.τ U i
+      match l.why with
+      | .out =>
+        -- return address outside the executable: the machine runs to the position after the return
+        answer st I { s0 with idx := l.idx } l 0
+      | _ =>
+        if (at' st.τ i).ret = 0 then answer st I s0 { idx := i, why := .done } 0
+        else
+          let (s2, _) := tempRun s0 l.temps 0
+          answer st I s2 l 0
+    | _ => (st, "bad-op")
+
+def step (st : St) : List String → St × String
+  | "new" :: rest =>
+    let (c1, out) := Driver.C01.step {} ("new" :: rest)
+    ({ s := c1.s }, out)
+  | ["ann", ann] =>
+    match decList? some ann with
+    | some toks =>
+      match zipAnn st.s.τ toks with
+      | some ps => ({ st with τ := ps.toArray }, "ok")
+      | none => (st, "bad-op")
+    | none => (st, "bad-op")
+  | ["fn", id, df, rs, inl, paths, rows] =>
+    match hexNat? id, decList? decRng? rs, decList? decRng? inl, decList? decPair? paths, decList? decRow? rows with
+    | some id, some rs, some inl, some paths, some rows =>
+      let df := if df == "-" then none else hexNat? df
+      ({ st with fns := st.fns.push { id := id, ranges := rs, declFile := df, inl := inl, rows := rows.toArray, paths := paths } }, "ok")
+    | _, _, _, _, _ => (st, "bad-op")
+  | toks =>
+    if st.dead then (st, "after-exit")
+    else match toks with
+    | [c] =>
+      if c == "stepi" || c == "step" || c == "next" || c == "finish" then stepCmd st c false
+      else if c == "continue" && st.inGap && st.s.status == Status.inProgress then
+        -- resumed outside the executable: nothing at `τ[idx]` has been executed yet, no breakpoint to step over
+        let s0 := { st.s with pokes := [] }
+        let (s1, o) := traceLoopT (fuelFor s0) s0
+        ({ st with s := s1, inGap := false }, showOut o s1)
+      else
+        let (c2, out) := Driver.C02.stepLive { s := st.s } toks
+        ({ st with s := c2.s, inGap := false }, out)
+    | [c, "out"] =>
+      if c == "stepi" || c == "finish" || c == "next" then stepCmd st c true else (st, "bad-op")
+    | ["step", "out", k] =>
+      match decNat? k with
+      | some k => stepCmd st "step" true k
+      | none => (st, "bad-op")
+    | _ =>
+      let (c2, out) := Driver.C02.stepLive { s := st.s } toks
+      ({ st with s := c2.s, inGap := false }, out)
+
 end Driver.C03
